@@ -197,11 +197,11 @@ namespace ip {
 	void udp::socket::abort_send_handlers()
 	{
 		if (m_send_handler)
-			post(m_io_service, make_malloc(std::bind(std::ref(m_send_handler)
+			post(m_io_service, make_malloc(std::bind(std::move(m_send_handler)
 				, boost::system::error_code(error::operation_aborted), std::size_t(0))));
 
 		if (m_wait_send_handler)
-			post(m_io_service, make_malloc(std::bind(std::ref(m_wait_send_handler)
+			post(m_io_service, make_malloc(std::bind(std::move(m_wait_send_handler)
 				, boost::system::error_code(error::operation_aborted))));
 
 		m_send_timer.cancel();
@@ -238,10 +238,23 @@ namespace ip {
 			if (m_next_send - now > m_send_queue_time / 2)
 			{
 				// our send queue is too large. Defer
-				m_recv_timer.expires_at(m_next_send + m_send_queue_time / 2);
+				m_send_timer.expires_at(m_next_send + m_send_queue_time / 2);
 
 				m_wait_send_handler = std::move(handler);
-				m_recv_timer.async_wait(make_malloc(std::bind(std::ref(m_wait_send_handler), no_error)));
+				// refer to the socket through its forwarder: it is detached when the
+				// socket is closed or destroyed and follows it when it is moved
+				std::shared_ptr<aux::sink_forwarder> fwd = m_forwarder;
+				m_send_timer.async_wait(aux::make_malloc([fwd](boost::system::error_code const& e)
+				{
+					// when the wait is cancelled, abort_send_handlers() has
+					// completed the handler already
+					if (e) return;
+					auto* self = static_cast<udp::socket*>(fwd->destination());
+					if (self == nullptr || !self->m_wait_send_handler) return;
+					auto h = std::move(self->m_wait_send_handler);
+					self->m_wait_send_handler = nullptr;
+					h(boost::system::error_code());
+				}));
 				return;
 			}
 
